@@ -55,12 +55,22 @@ LrefCharAlpha == <<"a", "b", "~", "/", ".", "[", "]", "=", ":", " ", "*", "1", "
 LrefCharStrings(firstc, maxlen) ==
   LET A == {LrefCharAlpha[i] : i \in 1..Len(LrefCharAlpha)}
   IN UNION {{firstc \o Concat(s) : s \in [1..n -> A]} : n \in 0..(maxlen - 1)}
+\* identifiers around the reserved 'xml' start, in every position of a path-arg a node-identifier can take
+LrefNames == {h \o t : h \in XmlHeads, t \in {"", "a", "ns", "_1", "-x", ".y", "0"}}
+             \cup {"xm", "xlm", "axml", "_xml", "x", "xm_l", "mxl", "lmx", "xXml", "XM", "xmL0", "x.ml"}
+LrefNameToks == LrefNames \cup {"p:" \o n : n \in LrefNames} \cup {n \o ":a" : n \in LrefNames}
+LrefNameSeqs == UNION {{<<"/", n>>, <<"..", "/", n>>, <<"/", n, "/", "a">>, <<"..", "/", "..", "/", "a", "/", n>>,
+                        <<"/", "a", "[", n, "=", "current", "(", ")", "/", "..", "/", "b", "]", "/", "c">>,
+                        <<"/", "a", "[", "k", "=", "current", "(", ")", "/", "..", "/", n, "]">>,
+                        <<"/", "a", "[", "k", "=", "current", "(", ")", "/", "..", "/", n, "/", "b", "]", "/", n>>} : n \in LrefNameToks}
+XmlCharAlpha == {"x", "m", "l", "X", "M", "a", ":", "/", "_"}
+XmlCharStrings(maxlen) == UNION {{"/" \o Concat(s) : s \in [1..n -> XmlCharAlpha]} : n \in 1..maxlen}
 VecLC(cs) == [kind |-> "chars", lang |-> "leafref", ts |-> <<cs>>, v |-> LeafrefCharVerdict(cs), why |-> ""]
 VecC(cs) == LET r == CharVerdict(cs) IN [kind |-> "chars", lang |-> "expr", ts |-> <<cs>>, v |-> r.v, why |-> r.why]
 VARIABLES kind, first, chunk, done
 Jobs == {<<"full", i, 0>> : i \in 1..Len(FullAlpha)} \cup {<<"core", i, 0>> : i \in 1..Len(CoreAlpha)} \cup {<<"tiny", i, 0>> : i \in 1..Len(TinyAlpha)}
         \cup {<<"mutant", f, c>> : f \in MutFams, c \in 1..NChunks} \cup {<<"lref", i, 0>> : i \in 1..Len(LrefAlpha)} \cup {<<"lref", 0, 0>>}
-        \cup {<<"chars", i, 0>> : i \in 1..Len(CharAlpha)} \cup {<<"lchars", i, 0>> : i \in 1..Len(LrefCharAlpha)}
+        \cup {<<"chars", i, 0>> : i \in 1..Len(CharAlpha)} \cup {<<"lchars", i, 0>> : i \in 1..Len(LrefCharAlpha)} \cup {<<"lref", 99, 0>>, <<"lchars", 99, 0>>}
 GInit == \E j \in Jobs : kind = j[1] /\ first = j[2] /\ chunk = j[3] /\ kind \in Kinds /\ done = FALSE
 File == "gvec_" \o kind \o "_" \o ToString(first) \o "_" \o ToString(chunk) \o ".ndjson"
 \* the ASTs of a family that fall into this chunk (every MutEvery-th AST of the family is used)
@@ -73,9 +83,11 @@ GNext == /\ ~done /\ done' = TRUE /\ UNCHANGED <<kind, first, chunk>>
               [] kind = "mutant" -> ndJsonSerialize(File, SetToSeq({VecE(kind, m) : m \in {x \in UNION {Mutants(Toks(e, "min")) \cup {Toks(e, "min")} : e \in ChunkAsts} : QuoteSafe(x)}}))
                                     \* sanity of the spec itself: every rendered AST is a sentence of the language
                                     /\ Assert(\A e \in ChunkAsts : Verdict(Toks(e, "min")) # "reject" /\ Verdict(Toks(e, "full")) # "reject", "rendered AST rejected by the grammar spec")
-              [] kind = "lchars" -> ndJsonSerialize(File, SetToSeq({VecLC(cs) : cs \in LrefCharStrings(LrefCharAlpha[first], MaxChars + 1)}))
+              [] kind = "lchars" /\ first = 99 -> ndJsonSerialize(File, SetToSeq({VecLC(cs) : cs \in XmlCharStrings(MaxChars + 1)}))
+              [] kind = "lchars" /\ first # 99 -> ndJsonSerialize(File, SetToSeq({VecLC(cs) : cs \in LrefCharStrings(LrefCharAlpha[first], MaxChars + 1)}))
               [] kind = "chars" -> ndJsonSerialize(File, SetToSeq({VecC(cs) : cs \in CharStrings(CharAlpha[first], MaxChars)}))
-              [] kind = "lref" -> IF first = 0
+              [] kind = "lref" -> IF first = 99 THEN ndJsonSerialize(File, SetToSeq({VecL(kind, ts) : ts \in LrefNameSeqs}))
+                                  ELSE IF first = 0
                                   THEN ndJsonSerialize(File, SetToSeq({VecL(kind, m) : m \in UNION {Mutants(p) \cup {p} : p \in LrefPool}}))
                                   ELSE ndJsonSerialize(File, SetToSeq({VecL(kind, ts) : ts \in SeqsFrom(LrefAlpha, LrefAlpha[first], MaxLref)}))
 =============================================================================
